@@ -74,11 +74,21 @@ def oracle_(case):
         return False, f"hedge {case['hedge']} is not registered"
     if "xs" in case:
         return oracle_layouts(case)
+    if "pair" in case:
+        x, y = case["pair"]
+        fx, fy = impl(case["hedge"], x), impl(case["hedge"], y)
+        bad = fy > fx if case["hedge"] == "not" else fy < fx
+        if x <= y and bad:
+            return False, (f"{case['hedge']} is not monotone between neighbouring degrees: {case['hedge']}({x!r}) = {fx!r}, "
+                           f"{case['hedge']}({y!r}) = {fy!r}")
+        return True, "ok"
     name, x = case["hedge"], float(case["x"])
     v = impl(name, x)
     if name in DOC and 0 <= x <= 1:
         d = DOC[name](x)
-        if not (abs(v - d) <= 1e-9):
+        # the documented formula, also in relative terms: a small degree keeps its order of magnitude (very(1e-9) is 1e-18,
+        # not 0) - every formula is a product / square root / complement that floats evaluate to a few ulps
+        if not (abs(v - d) <= 1e-9) or not (abs(v - d) <= 1e-9 * abs(d)):
             return False, f"{name}({x}) = {v!r}, documented formula gives {d!r}"
         if not (-1e-12 <= v <= 1 + 1e-12):
             return False, f"{name}({x}) = {v!r} outside [0,1]"
@@ -134,6 +144,12 @@ def points(ctx):
         yield ctx.rng.random(), "random"
     for v in (math.nan, math.inf, -math.inf, -0.5, 1.5, 2.0):
         yield v, "special"
+    # small and nearly-one degrees (tails of Gaussian terms, saturated sigmoids)
+    for e in (3, 5, 9, 12, 30, 100, 200, 300):
+        yield 10.0 ** -e, "small"
+        yield 1.234 * 10.0 ** -e, "small"
+        if e <= 12:
+            yield 1.0 - 10.0 ** -e, "small"
 
 
 def correspond(ctx):
@@ -157,7 +173,7 @@ def correspond(ctx):
             if len(mism) > 20:
                 break
     step = max(1, len(cs) // ctx.scale(4000, 40000))
-    for name, x, kind in cs[::step] + [c for c in cs if c[2] in ("branch", "special")]:
+    for name, x, kind in cs[::step] + [c for c in cs if c[2] in ("branch", "special", "small")]:
         ok, detail = oracle({"hedge": name, "x": x})
         st.count("oracle")
         if not ok:
@@ -170,6 +186,24 @@ def correspond(ctx):
         if not ok:
             mism.append({"case": case, "violation": True, "detail": detail, "what": detail})
             break
+    # monotone between neighbouring doubles (each formula is a composition of correctly rounded monotone operations, so the
+    # float function itself is monotone, not only up to a tolerance)
+    xs = np.array([ctx.rng.random() for _ in range(ctx.scale(4000, 40000))] + [10.0 ** -k for k in range(1, 17)])
+    xs = xs[(xs > 0) & (xs < 1)]
+    for k in (1, 2, 5):
+        ys = xs.copy()
+        for _ in range(k):
+            ys = np.nextafter(ys, 1.0)
+        for name, h in hedges().items():
+            with np.errstate(all="ignore"):
+                a, b = np.asarray(h.hedge(xs), dtype=float), np.asarray(h.hedge(ys), dtype=float)
+            bad = np.argwhere(b > a) if name == "not" else np.argwhere(b < a)
+            st.count("mono-neighbours", len(xs))
+            if len(bad):
+                i = int(bad[0][0])
+                case = {"hedge": name, "pair": [float(xs[i]), float(ys[i])]}
+                ok, detail = oracle(case)
+                mism.append({"case": case, "violation": True, "detail": detail, "what": detail})
     # monotonicity on the implementation over the grid
     g = np.linspace(0, 1, 4097)
     for name, h in hedges().items():
